@@ -103,6 +103,7 @@ def main(tier: str) -> int:
                 for name, par, rep in variants(tier):
                     if kind == "ins" and tier == "quick" and name not in ("fresh process again", "twice in one process",
                                                                             "n_pool=2", "chunksize=7",
+                                                                            "n_pool=2 parallelise_prior",
                                                                             "user-supplied pool of 2"):
                         continue
                     jobs.append((name, kind, sd, dict(base, parallel=par, repeat=rep)))
